@@ -276,6 +276,10 @@ func run(c Case) ev.Verdict {
 			return ev.Fail("strict checking requested but argv disables it: %q", argv)
 		}
 
+		if os.Getenv("DBG_ARGV") != "" {
+			fmt.Printf("ARGV %q pw=%q\n", argv, c.Password)
+		}
+
 		for _, a := range argv {
 			if strings.Contains(a, c.Password) {
 				return ev.Fail("the password is on the ssh command line: %q", argv)
